@@ -51,7 +51,9 @@ def _new_met(v, mid, template=None):
     v["metabolites"][mid] = m
     comp = m["compartment"]
     if comp is not ANY and comp is not None and comp not in v["compartments"]:
-        v["compartments"][comp] = ""
+        # the model may remember a name for a compartment that had become empty: not documented
+        if v["compartments"] is not ANY:
+            v["compartments"][comp] = ANY
     elif comp is ANY:
         v["compartments"] = ANY
 
@@ -315,6 +317,8 @@ def expected(pre, op, pool):
     if k == "add_boundary":
         mid, typ = op[1], op[2]
         m = M[mid]
+        if typ == "exchange" and not any(x["compartment"] == "e" for x in M.values()):
+            return None  # which compartment counts as external is a heuristic then: no reference
         if typ == "exchange" and m["compartment"] != "e":
             return {"raise": True}
         if typ not in ("exchange", "demand", "sink"):
